@@ -802,3 +802,6 @@ fn sha256(data: &[u8]) -> [u8; 32] {
     use sha2::Sha256;
     Sha256::digest(data)
 }
+
+#[cfg(feature = "verif")]
+pub(crate) mod verif_hooks;
